@@ -68,5 +68,15 @@ def run(ctx):
             continue
         c = gen.rand_cfg(rng, algorithm=0, stopflags=rng.below(6) == 0, wantSub=0)
         lines.append(gen.cfg_line(c) + " " + mat_line(M))
+    # supports of pivoted / permuted presentations of regular matroids that need 3-sums (R12, 3-sums of a graphic and a
+    # cographic matroid, up to 7x7), a third corrupted: they reach the 3-separation search of the decomposition
+    seeds = gen.library_signed(ctx.drive("rel"), gen.deep_binary_seeds(rng, 30 if q else 200, 36))
+    for _ in range(2500 if q else 40000):
+        M = gen.pivoted_presentation(rng, [r[:] for r in rng.choice(seeds)], rng.below(4))
+        M = [[abs(x) for x in r] for r in M]
+        if rng.below(3) == 0:
+            M = gen.corrupt(rng, M, (0, 1))
+        c = gen.rand_cfg(rng, algorithm=0, stopflags=False, wantSub=0)
+        lines.append(gen.cfg_line(c) + " " + mat_line(M))
     ctx.stream("regular", lines, "regular verdict: exhaustive small x parameter cover, random, structured supports",
                describe=lambda c: CODES.get(c, str(c)), nontrivial=nontrivial, keyfn=keyfn)
